@@ -75,12 +75,21 @@ Definition class_of {A} (r : res A) : N :=
                                                        header + body as ReadFixedHeader/ReadPacket
    outcome: 0 = ok (projection = decoded packet), 1 = error, 2 = panic (recovered by the harness),
    3 = the decoder did not return within the harness' time budget (watched child process).
-   Specification: the outcome is never a panic and the decoder terminates.  Model: same class and, when ok, same fields. *)
+   Specification: the outcome is never a panic, the decoder terminates, and an input in which a
+   declared length exceeds the available bytes is not accepted.  Model: same class and, when ok, same fields. *)
+
+(* the model rejects the input because a declared length / a fixed-size field exceeds the bytes
+   supplied: accepting such an input violates the specification (theorems C27_declared_length_checked,
+   C27_property_length_checked say the current code rejects it) *)
+Definition bounds_rejected {A} (r : res A) : bool :=
+  match r with Err e => is_bounds e | _ => false end.
 
 Definition total_verdict (tg : bytes) (nontriv : bool) (outcome : N) (proj : val)
            (m : res val) : val :=
   if outcome =? 2 then verdict 1 (tg ++ tag "-panic") nontriv [VN (class_of m)]
   else if outcome =? 3 then verdict 1 (tg ++ tag "-hang") nontriv [VN (class_of m)]
+  else if (outcome =? 0) && bounds_rejected m
+  then verdict 1 (tg ++ tag "-length-accepted") nontriv [VN (class_of m)]
   else if negb (class_of m =? outcome) then verdict 2 tg nontriv [VN (class_of m)]
   else match m with
        | Ok mv => if beq_val mv proj then verdict 0 (tg ++ tag "-ok") nontriv []
